@@ -66,6 +66,7 @@ def run(chk):
     proofs_ok = False
     if rc != 0:
         chk.obligations.extend(chk.theorem_names(os.path.join(checklib.COQ_PROPS, "C04.v")))
+        chk.obligations.extend(chk.theorem_names(os.path.join(checklib.COQ_PROPS, "C04_general_props.v")))
         chk.broken.append({"file": "symgen_C04.py", "item": "model regeneration", "coqc_output": out[-1500:]})
     else:
         proofs_ok = chk.compile_chain(["Gen_C04.v"], ["C04_lemmas.v"], "C04.v", timeout=900)
